@@ -138,7 +138,7 @@ CHECKS['C08'] = dict(
     jobs=[dict(name='gate', spec=H('h_gate.c', 'asan'), args=[])],
     states_key='cases', transitions_key='transitions', traces_key='cases',
     rule='one case = (key index sequence, small/big value vector, configuration); signature = (#blocks, #refused, #accepted)',
-    bounds={'quick': 'sequences of length<=4 over 8 keys (4681) x 2^n value vectors x {restart 16, restart 1}, compression none, block size 1024; 7 exclusive-create scenarios',
+    bounds={'quick': 'sequences of length<=4 over 8 short keys (4681) x 2^n value vectors x {restart 16, restart 1}, the same sequences over a second pool of 8 keys of 4-5 bytes (restart 16), compression none, block size 1024; 7 exclusive-create scenarios',
             'thorough': 'length<=5 (37449 sequences), adds lz4'},
     nonzero=['cases', 'cases_with_refusal', 'excl_cases'],
     assumptions=[],
@@ -361,7 +361,7 @@ CHECKS['C07'] = dict(
     jobs=[dict(name='fileset-bfs', spec=_FS, args=lambda tier: ['7' if tier == 'thorough' else '5'])],
     states_key='states', transitions_key='transitions', traces_key='executions',
     rule='a state = canonical hash of (shared fileset counters and stamps, my_fileset entries, per-handle stamp equality and merger sources, open iterators, reference interval, capped clock ages); signature = (configuration, first operation)',
-    bounds={'quick': 'histories of depth<=5 (plus 2 warm-up operations in warm configurations), 4 configurations, ~17 operations enabled per state',
+    bounds={'quick': 'histories of depth<=5 (plus 2 warm-up operations in warm configurations), 4 configurations, ~20 operations enabled per state (6 setfile versions, 4 clock steps, 5 operations per handle, destroy)',
             'thorough': 'depth<=7, 8 configurations'},
     nonzero=['states', 'transitions', 'searches'],
     assumptions=['the monotonic clock strictly increases between two calls', 'distinct setfile versions have distinct (inode, mtime seconds)', 'reloading earlier than required is accepted'],
